@@ -205,7 +205,37 @@ def case_history(case):
     return r.done(outcome=[round(float(v), 9) for v in iso.ravel()[:4]])
 
 
-GROUPS = {"matrix": case_matrix, "model": case_model, "pipeline": case_pipeline, "history": case_history}
+def case_temporal(case):
+    """space-time (metric) models: rotation acts on the spatial axes only - angles given through the constructor or
+    through the setter (also more angles than spatial rotations); the time axis is only scaled by its ratio"""
+    r = R()
+    sd, ang, route = case["sdim"], case["angles"], case["route"]
+    anis = [0.5, 1.4, 0.7][: sd - 1] + [2.0]
+    if route == "init":
+        m = gs.Gaussian(temporal=True, spatial_dim=sd, len_scale=2.0, anis=anis, angles=ang)
+    else:
+        m = gs.Gaussian(temporal=True, spatial_dim=sd, len_scale=2.0, anis=anis)
+        m.isometrize(np.ones((sd + 1, 2)))
+        m.angles = ang
+    extra = {"sdim": sd, "route": route, "nangles": len(np.atleast_1d(ang))}
+    ns = og.n_angles(sd)
+    sang = list(np.atleast_1d(ang))[:ns] + [0.0] * max(0, ns - len(np.atleast_1d(ang)))
+    rng = np.random.RandomState(4)
+    pos = rng.uniform(-3, 3, size=(sd + 1, 5))
+    exp_sp = og.isometrize(sd, sang, anis[: sd - 1], pos[:sd]) if sd > 1 else pos[:sd]
+    exp = np.vstack([exp_sp, pos[sd:] / anis[-1]])
+    r.close("space-time isometrize == spatial rotation / stretching and time / time-ratio", m.isometrize(pos), exp, rtol=1e-12, atol=1e-12, **extra)
+    A = np.array(m.main_axes())
+    r.close("last main axis is the time axis", A[-1], np.eye(sd + 1)[-1], rtol=0, atol=1e-13, **extra)
+    r.close("time components of the spatial main axes are zero", A[:-1, -1], np.zeros(sd), rtol=0, atol=1e-13, **extra)
+    t = np.array([0.5, 1.0, 3.0])
+    lag = np.zeros((sd + 1, 3))
+    lag[-1] = t
+    r.close("pure time lags have the length scale len_scale * time ratio", m.cov_spatial(lag), m.covariance(t / anis[-1]), rtol=1e-12, atol=1e-14, **extra)
+    return r.done(outcome=[sd, route, len(np.atleast_1d(ang))])
+
+
+GROUPS = {"temporal": case_temporal, "matrix": case_matrix, "model": case_model, "pipeline": case_pipeline, "history": case_history}
 
 
 def angle_sets(dim, seed, tier):
@@ -276,5 +306,7 @@ def run(chk):
                     if cls == "Spherical" and d == 4:
                         continue
                     hcases.append({"dim": d, "from": a0, "to": a1, "order": order, "cls": cls})
+    tc = [{"sdim": sd, "angles": a, "route": rt} for sd in (1, 2, 3) for rt in ("init", "setter") for a in ([0.6], [0.6, 0.3], [0.3, 0.4, 0.2], [0.6, 0.3, -0.4, 0.2, 0.1, 0.5], [0.0, 0.0, 0.9])]
+    chk.run("temporal", case_temporal, tc, rule="space-time models, spatial_dim 1-3 x angle vectors of every length (incl. more angles than spatial rotations) x {constructor, angles setter}: isometrize, main axes, pure time lags", chunk=8)
     chk.run("history", case_history, hcases, rule="dim 2-4 x every ordered pair of settings from {isotropic, generic anisotropic+rotated, rotated only, anisotropic only} x order of the in-place assignments {angles then anis, anis then angles, angles + len_scale list, mixed}: the model is used (transforms, SRF, kriging) under the first setting and changed in place; transforms, covariance, SRF (after model re-assignment) and kriging (after set_condition) follow the new setting", chunk=8)
     chk.assume("angles and ratios are finite alphabets (all multiples of pi/2 up to pi, three generic values, seed-selected generic values); universal kriging enters the pipeline equivalence with drift functions that are composed with the inverse transform for the isotropic twin (they are evaluated in field coordinates by design)")
